@@ -295,6 +295,9 @@ def run_harness(ck, binp, extra, timeout=3000):
             o = json.loads(line)
             if o.get("summary"):
                 summary = o
+            elif o.get("aborted"):
+                ck.coverage["harness_aborted"] = o
+                ck.notes.append("harness stopped after %d cases without a result" % o.get("crashes", 0))
             else:
                 cases.append(o)
     return cases, summary
